@@ -1423,12 +1423,32 @@ impl<'v> World<'v> {
                     kind.name(),
                     format!("handle of request {} reports pending={} complete={} invalidated={}", h.seq, p, c, i),
                 ),
-                Some(a) if a != want => sh.oracle.flag(
-                    "C18",
-                    &format!("status-{:?}-expected-{:?}", a, want),
-                    kind.name(),
-                    format!("{}: handle of request {} reports {:?}, reference model says {:?}", when, h.seq, a, want),
-                ),
+                Some(a) if a != want => {
+                    // a completed request whose identifier has meanwhile been handed out again (the counter went
+                    // round) and is in flight for the later request: named separately
+                    let epoch = sh.oracle.epoch;
+                    let pid = sh.oracle.reqs[h.seq as usize].pid;
+                    let reused = want == Status::Complete
+                        && a == Status::Pending
+                        && pid.is_some()
+                        && sh.oracle.reqs.iter().enumerate().any(|(k, r)| k != h.seq as usize && r.pid == pid && r.live(epoch) && !r.done);
+                    let ctx = if reused { "identifier-handed-out-again-after-the-counter-went-round" } else { kind.name() };
+                    sh.oracle.flag(
+                        "C18",
+                        &format!("status-{:?}-expected-{:?}", a, want),
+                        ctx,
+                        format!("{}: handle of request {} reports {:?}, reference model says {:?}", when, h.seq, a, want),
+                    );
+                    if want == Status::Invalidated {
+                        // C05: once the broker reported no session all earlier handles report invalidated
+                        sh.oracle.flag(
+                            "C05",
+                            "S3-handle-not-invalidated",
+                            kind.name(),
+                            format!("{}: a fresh broker session replaced the one request {} was made in, but its handle reports {:?}", when, h.seq, a),
+                        );
+                    }
+                }
                 _ => {}
             }
         }
@@ -1583,7 +1603,7 @@ impl<'v> World<'v> {
                     if is_req && self.reqs_done >= self.cfg.max_reqs {
                         continue;
                     }
-                    if *op == OpK::Age && self.live_ids().is_empty() {
+                    if *op == OpK::Age && self.live_ids().is_empty() && self.cfg.age_targets.is_empty() {
                         continue;
                     }
                     menu.push(*op);
@@ -2027,6 +2047,11 @@ impl<'v> World<'v> {
                         }
                     }
                 }
+                for t in self.cfg.age_targets.clone() {
+                    if !ids.contains(&t) {
+                        ids.push(t);
+                    }
+                }
                 let i = self.decide_arg(ids.len());
                 let target = ids[i];
                 let from = conn.session().verif_runtime().next_packet_id;
@@ -2037,7 +2062,7 @@ impl<'v> World<'v> {
                         steps,
                         from,
                         target,
-                        if live.contains(&target) { " (still in flight)" } else { " (aliases an identifier in flight modulo a power of two)" }
+                        if live.contains(&target) { " (still in flight)" } else if self.cfg.age_targets.contains(&target) { " (a listed value)" } else { " (aliases an identifier in flight modulo a power of two)" }
                     )
                 });
                 conn.verif_session_mut().verif_set_next_packet_id(target);
